@@ -184,4 +184,177 @@ theorem C09_wiring :
     Sso.Generated.skel_auth_ProxyOAuthRedirect =
       ["call:ParseForm", "if{", "call:Error", "call:ErrorResponse", "return", "}", "call:Get", "if{", "call:append", "call:Incr", "call:ErrorResponse", "return", "}", "call:Get", "if{", "call:append", "call:Incr", "call:ErrorResponse", "return", "}", "call:Parse", "if{", "call:append", "call:Incr", "call:ErrorResponse", "return", "}", "call:MarshalSession", "if{", "call:append", "call:Incr", "call:Error", "call:ErrorResponse", "return", "}", "call:string", "call:getAuthCodeRedirectURL", "if{", "call:append", "call:Incr", "call:Error", "call:ErrorResponse", "return", "}", "call:Redirect"] := by decide
 
+/-! ### Histories at the authenticator -/
+
+def asaves : List AWrite → List ASess
+  | [] => []
+  | .save s :: t => s :: asaves t
+  | .clear :: t => asaves t
+
+/-- what `authenticate` hands on (`.ok s`) and whatever it re-saves keep the presented session's lifetime deadline and e-mail,
+and it hands on a session only while that lifetime has not passed -/
+theorem authenticate_frame (lower : Bytes → Bytes) (emailOK : Bytes → Bool) (now : Int) (s : ASess) (a : IdPAns) :
+    (∀ s', (authenticate lower emailOK now (.opens s) a).1 = .ok s' →
+        s'.lifetime = s.lifetime ∧ s'.email = s.email ∧ aexp s.lifetime now = false) ∧
+    (∀ s' ∈ asaves (authenticate lower emailOK now (.opens s) a).2.1, s'.lifetime = s.lifetime ∧ s'.email = s.email) := by
+  unfold authenticate
+  simp only
+  by_cases h1 : aexp s.lifetime now = true
+  · simp [h1, asaves]
+  · simp only [h1, Bool.false_eq_true, if_false]
+    by_cases h2 : aexp s.refresh now = true
+    · simp only [h2, if_true]
+      by_cases h3 : s.refreshTok = ""
+      · simp [h3, asaves]
+      · simp only [h3, if_false]
+        cases hr : a.refresh with
+        | error e => simp [asaves]
+        | ok p =>
+          obtain ⟨tok, ttl⟩ := p
+          simp only
+          by_cases he : emailOK s.email = true
+          · simp [he, asaves]
+          · simp [he, asaves]
+    · simp only [h2, Bool.false_eq_true, if_false]
+      by_cases h3 : s.access = ""
+      · simp [h3, asaves]
+      · simp only [h3, if_false]
+        by_cases h4 : a.validate = true
+        · simp only [h4, if_true]
+          by_cases he : emailOK s.email = true
+          · simp [he, asaves]
+          · simp [he, asaves]
+        · simp [h4, asaves]
+
+/-! ### histories at the authenticator -/
+
+/-- one browser's authenticator cookies: the session the IdP callback created and everything re-saved since -/
+structure AWorld where
+  root : ASess
+  issued : List ASess
+
+inductive APresented where
+  | nth (i : Nat) | none | garbage
+
+def AWorld.cookie (w : AWorld) : APresented → CookieIn
+  | .nth i => .opens ((w.issued ++ [w.root])[i]?.getD w.root)
+  | .none => .absent
+  | .garbage => .junk
+
+structure AStep where
+  now : Int
+  presented : APresented
+  ans : IdPAns
+  state : String
+  redirect : String
+  redirectParses : Bool
+
+def stepA (lower : Bytes → Bytes) (emailOK : Bytes → Bool) (w : AWorld) (st : AStep) : AWorld × SignInOut :=
+  let o := signIn lower emailOK st.now (w.cookie st.presented) st.ans st.state st.redirect st.redirectParses
+  ({ w with issued := asaves o.2.1 ++ w.issued }, o.1)
+
+def runA (lower : Bytes → Bytes) (emailOK : Bytes → Bool) (w : AWorld) : List AStep → AWorld × List SignInOut
+  | [] => (w, [])
+  | st :: t =>
+    let (w', o) := stepA lower emailOK w st
+    let (w'', os) := runA lower emailOK w' t
+    (w'', o :: os)
+
+def AInv (w : AWorld) : Prop := ∀ s ∈ w.issued, s.lifetime = w.root.lifetime ∧ s.email = w.root.email
+
+theorem acookie_frame (w : AWorld) (hw : AInv w) (p : APresented) (s : ASess) (h : w.cookie p = .opens s) :
+    s.lifetime = w.root.lifetime ∧ s.email = w.root.email := by
+  cases p with
+  | none => simp [AWorld.cookie] at h
+  | garbage => simp [AWorld.cookie] at h
+  | nth i =>
+    simp only [AWorld.cookie, CookieIn.opens.injEq] at h
+    cases hg : (w.issued ++ [w.root])[i]? with
+    | none => rw [hg] at h; simp at h; subst h; exact ⟨rfl, rfl⟩
+    | some x =>
+      rw [hg] at h; simp at h; subst h
+      have := List.mem_of_getElem? hg
+      rcases List.mem_append.1 this with h1 | h1
+      · exact hw _ h1
+      · simp at h1; subst h1; exact ⟨rfl, rfl⟩
+
+theorem signIn_saves (lower : Bytes → Bytes) (emailOK : Bytes → Bool) (now : Int) (c : CookieIn) (a : IdPAns) (state redirect : String) (rp : Bool) :
+    asaves (signIn lower emailOK now c a state redirect rp).2.1 = asaves (authenticate lower emailOK now c a).2.1 := by
+  have hcl : ∀ l : List AWrite, asaves (l ++ [.clear]) = asaves l := by
+    intro l; induction l with
+    | nil => rfl
+    | cons x t ih => cases x <;> simp [asaves, ih]
+  unfold signIn
+  rcases hauth : authenticate lower emailOK now c a with ⟨r, w, calls⟩
+  cases r with
+  | ok s => simp only; split <;> (try split) <;> (try split) <;> rfl
+  | noCookie => rfl
+  | invalidSession => simp [hcl]
+  | lifetimeExpired => simp [hcl]
+  | notAuthorized => rfl
+  | perr e => cases e <;> simp [hcl]
+
+theorem stepA_inv (lower : Bytes → Bytes) (emailOK : Bytes → Bool) (w : AWorld) (st : AStep) (hw : AInv w) :
+    AInv (stepA lower emailOK w st).1 := by
+  intro s hs
+  simp only [stepA, List.mem_append] at hs
+  rcases hs with hs | hs
+  · rw [signIn_saves] at hs
+    cases hc : w.cookie st.presented with
+    | absent => rw [hc] at hs; simp [authenticate, asaves] at hs
+    | junk => rw [hc] at hs; simp [authenticate, asaves] at hs
+    | opens s0 =>
+      rw [hc] at hs
+      have h0 := acookie_frame w hw _ s0 hc
+      have := (authenticate_frame lower emailOK st.now s0 st.ans).2 s hs
+      exact ⟨this.1.trans h0.1, this.2.trans h0.2⟩
+  · exact hw s hs
+
+/-- **Codes only within the lifetime fixed at login, along every history.** Start from the session the IdP callback
+created at `t₀` (lifetime `t₀ + L`). Along every history of sign-in requests — any timing, any provider answers, any
+refreshes, replays of older cookies of the chain — a code is issued at time `now` only if `now ≤ t₀ + L`; the code's
+session carries that same lifetime deadline and the same e-mail, so `/redeem` refuses it once the lifetime has passed. -/
+theorem C09_code_lifetime_bound (lower : Bytes → Bytes) (emailOK : Bytes → Bool) (w : AWorld) (sts : List AStep) (hw : AInv w) :
+    ∀ p ∈ sts.zip (runA lower emailOK w sts).2, ∀ s, p.2 = .codeRedirect s →
+      p.1.now ≤ w.root.lifetime ∧ s.lifetime = w.root.lifetime ∧ s.email = w.root.email := by
+  induction sts generalizing w with
+  | nil => intro p hp; simp [runA] at hp
+  | cons st t ih =>
+    have h1 := stepA_inv lower emailOK w st hw
+    intro p hp s hs
+    simp only [runA, List.zip_cons_cons, List.mem_cons] at hp
+    rcases hp with rfl | hp
+    · simp only [stepA] at hs
+      unfold signIn at hs
+      rcases hauth : authenticate lower emailOK st.now (w.cookie st.presented) st.ans with ⟨r, wr, calls⟩
+      rw [hauth] at hs
+      cases r with
+      | ok s1 =>
+        simp only at hs
+        have hs1 : s = s1 := by
+          split at hs; · cases hs
+          split at hs; · cases hs
+          split at hs; · cases hs
+          cases hs; rfl
+        subst hs1
+        cases hc : w.cookie st.presented with
+        | absent => rw [hc] at hauth; simp [authenticate] at hauth
+        | junk => rw [hc] at hauth; simp [authenticate] at hauth
+        | opens s0 =>
+          rw [hc] at hauth
+          have h0 := acookie_frame w hw _ s0 hc
+          have := (authenticate_frame lower emailOK st.now s0 st.ans).1 s (by rw [hauth])
+          have hl : ¬ s0.lifetime < st.now := by simpa [aexp] using this.2.2
+          refine ⟨?_, this.1.trans h0.1, this.2.1.trans h0.2⟩
+          show st.now ≤ w.root.lifetime
+          rw [← h0.1]; omega
+      | noCookie => simp at hs
+      | invalidSession => simp at hs
+      | lifetimeExpired => simp at hs
+      | notAuthorized => simp at hs
+      | perr e => cases e <;> simp at hs
+    · have := ih (stepA lower emailOK w st).1 h1 p hp s hs
+      exact this
+
+
 end Sso.AuthN
